@@ -63,7 +63,9 @@ func dependsOn(v, src ssa.Value, depth int) bool {
 	return false
 }
 
-// additive: v is src possibly converted, or a sum of non-negative terms one of which is additive in src.
+// additive: v is src possibly converted, or a sum of non-negative terms one of which is additive in
+// src.  A sum only counts when it is computed in a type wider than the decoded field (two 32-bit
+// sizes added in 32 bits wrap around and slip under the bound).
 func additiveIn(v, src ssa.Value, depth int) bool {
 	if v == src {
 		return true
@@ -78,10 +80,36 @@ func additiveIn(v, src ssa.Value, depth int) bool {
 		return additiveIn(x.X, src, depth+1)
 	case *ssa.BinOp:
 		if x.Op == token.ADD {
+			if intBits(x.Type()) <= intBits(src.Type()) {
+				if _, isK := constInt(x.Y); !isK {
+					if _, isK2 := constInt(x.X); !isK2 {
+						return false
+					}
+				}
+			}
 			return additiveIn(x.X, src, depth+1) || additiveIn(x.Y, src, depth+1)
 		}
 	}
 	return false
+}
+
+// intBits: width of an integer type under the analysed configuration (linux/amd64: int is 64 bit).
+func intBits(t types.Type) int {
+	b, ok := t.Underlying().(*types.Basic)
+	if !ok {
+		return 0
+	}
+	switch b.Kind() {
+	case types.Int8, types.Uint8:
+		return 8
+	case types.Int16, types.Uint16:
+		return 16
+	case types.Int32, types.Uint32:
+		return 32
+	case types.Int64, types.Uint64, types.Int, types.Uint, types.Uintptr:
+		return 64
+	}
+	return 0
 }
 
 // convOf: v is src through conversions only.
@@ -382,6 +410,8 @@ func ruleR10(p *Prog) []Ob {
 
 	// (d) may-be-empty results are not indexed without a length test
 	obs = append(obs, p.emptyResultObligations(ea)...)
+	// (e) the log file is only read through the decoders
+	obs = append(obs, p.rawReadObligations()...)
 	return obs
 }
 
